@@ -24,6 +24,10 @@ CHECKS = {
     "C10": ("robustness oracle over synthetic PDU / API / time-step histories against all four handlers in every reachable step", "5 C10", "synthetic peer, exception + state-unchanged oracle"),
     "C04": ("RetryModel (explicit counters and integer-millisecond deadlines of the three retry procedures) judged at every "
             "handler call while one or both link directions go silent at tape-chosen points, permanently or for a while", "5 C04", "timing oracle on the virtual clock"),
+    "C19": ("PutModel judged on every put request (valid / invalid / premature by schedule) issued between any two handler calls on two "
+            "source handlers sharing one sequence provider, two remote-entity configurations, 3x3 request-level mode / closure "
+            "settings; header mode, Metadata closure flag, segment length, CRC flag, id widths, sequence numbers judged on every "
+            "emitted PDU; twin run without the premature requests must produce the same trace", "5 C19", "PutModel + twin-run differential"),
     "C20": ("routing table and routing/admission agreement judged on every routed PDU incl. synthetic kinds and header variants; "
             "misroute and bad-status faults; table cells covered are measured (sampling, not enumeration)", "5 C20", "in-situ oracle + misroute fault"),
     "C12": ("clauses (a)-(e) judged on cancel requests (right / wrong id) injected between any two handler calls on either side, "
